@@ -73,7 +73,7 @@ let fn_mode inp outp =
     end) (read_lines inp);
   close_out oc
 
-(* ---- shapes:  d<k> s<k> r<k> b c  B( .. )  I<k>( .. )  E<k>( .. | .. )  L<k>( .. )  F<p>( .. )
+(* ---- shapes:  d<k> s<k> r<k> b c  B( .. )  I<k>( .. )  E<k>( .. / .. )  L<k>( .. )  F<p>( .. )
                  *<n>( .. )   (the sequence repeated n times) *)
 let num_after (tok : string) (from : int) (upto : int) : z =
   z_of_string (String.sub tok from (upto - from))
@@ -81,7 +81,7 @@ let num_after (tok : string) (from : int) (upto : int) : z =
 let rec parse_seq (toks : string list) : stmt list * string list =
   match toks with
   | [] -> ([], [])
-  | (")" | "|") :: _ -> ([], toks)
+  | (")" | "/") :: _ -> ([], toks)
   | t :: rest ->
       let n = String.length t in
       let ends_paren = n > 0 && t.[n - 1] = '(' in
@@ -101,9 +101,9 @@ let rec parse_seq (toks : string list) : stmt list * string list =
           match t.[0], r1 with
           | 'B', ")" :: r2 -> ([SBlock body], r2)
           | 'I', ")" :: r2 -> ([SIf (k (), body, false, [])], r2)
-          | 'E', "|" :: r2 ->
+          | 'E', "/" :: r2 ->
               let (eb, r3) = parse_seq r2 in
-              (match r3 with ")" :: r4 -> ([SIf (k (), body, true, eb)], r4) | _ -> failwith "limits: E( .. | .. )")
+              (match r3 with ")" :: r4 -> ([SIf (k (), body, true, eb)], r4) | _ -> failwith "limits: E( .. / .. )")
           | 'L', ")" :: r2 -> ([SLoop (k (), body)], r2)
           | 'F', ")" :: r2 -> ([SFn (k (), body)], r2)
           | '*', ")" :: r2 ->
